@@ -1,7 +1,7 @@
 """C18 - prime-field arithmetic (fp, primes, SpVecFP) matches arithmetic modulo p."""
 from lib import engine
 from lib.core import tier
-from units import k19_fp
+from units import k19_fp, k22_spvecfp
 
 LEVEL = "other"
 EXPLANATION = (
@@ -10,14 +10,18 @@ EXPLANATION = (
     "contract (--replace-call-with-contract): rejects p<=0, consults ext_gcd exactly once on (a,p), throws iff the "
     "gcd is not 1 and returns exactly the Bezout coefficient.  BOUNDED by CBMC (unwinding, not proof): the Euclid "
     "loop for |a|,|b|<=63 (thorough 127) incl. the repository's own assert; is_prime for p<256 (thorough 1024) "
-    "against the quantified definition 'no divisor in [2,p)' under a floor-sqrt contract.  BOUNDED natively on the "
+    "against the quantified definition 'no divisor in [2,p)' under a floor-sqrt contract; SpVecFP through the C++ front end "
+    "on a copy of the header with three declared mechanical edits (boost::get<I>( -> field access, boost::make_tuple( -> "
+    "constructor, stream operator dropped): +, +=, unit assignment with 15-bit moduli and lengths up to (2,1)/(1,2) "
+    "(thorough 3x3), scalar product / *= / dot product with 4-6 bit moduli and scalars (the SAT back end cannot finish "
+    "wider multiply-modulo chains within the cap) - canonical form preserved and every coordinate equals the dense value.  BOUNDED natively on the "
     "real templates with long AND boost::multiprecision::cpp_int: ext_gcd on every pair |a|,|b|<=400 (2048), "
     "the congruence a*inv = 1 (mod p), is_prime against a sieve to 2^16 (2^20), SpVecFP operation histories "
     "against a dense model.  CBMC counterexamples are replayed natively.")
 
 
 def run(rep):
-    engine.run_units(rep, k19_fp.units(tier()))
+    engine.run_units(rep, k19_fp.units(tier()) + k22_spvecfp.units(tier()), jobs=14)
     engine.run_native(rep, "e3_fp", build_kwargs=dict(libs=()),
                       functions={"fp<long|cpp_int>::ext_gcd": "bounded(native exhaustive grid)",
                                  "fp<long|cpp_int>::get_mult_inverse": "bounded(native grid)",
